@@ -101,7 +101,7 @@ def run(chk):
                   'restarts also faster than detection, cuts, heals, end_sync requests) followed by 14 quiet ticks and a drain of every '
                   'queue; non-trivial = at least two distinct Masters held over the schedule, or a Master elected among >= 3 instances; '
                   'distinct = distinct schedule seed',
-                  quick_cases=50, thorough_cases=700, sched_kwargs={'quiet_ticks': 14, 'nmax': 5, 'heal_at_end': True, 'rpc_names': ('end_sync', 'end_sync', 'end_sync', 'restart', 'shutdown')}, extra_judge=judge)
+                  quick_cases=50, thorough_cases=700, sched_kwargs={'quiet_ticks': 14, 'nmax': 5, 'heal_at_end': True, 'rpc_names': ('end_sync', 'end_sync', 'end_sync', 'restart', 'shutdown'), 'split_start': 0.25}, extra_judge=judge)
     chk.coverage['schedules_ending_in_a_judged_quiescent_fixpoint'] = judged[0]
     chk.assumptions += ['convergence TIME under arbitrary fair asynchronous schedules is not proved (explored by the schedules only)',
                         'agreement is judged at quiescent fixpoints past SYNCHRONIZATION (a cluster whose synchronisation condition cannot be met '
